@@ -783,6 +783,7 @@ func genC06(r *rng, tier string, emit func(string)) {
 	c06oGen(r, tier, emit) // configuration corners: VerifyPeerCertificate, GetConfigForClient, ALPN, DynamicRecordSizingDisabled
 	c06iGen(r, tier, emit) // certificates issued by an intermediate CA, every way of supplying the chain (c06inter.go)
 	c06kGen(r, tier, emit) // key types of the certificates in the server's slots and of the client certificate (c06keytype.go)
+	c06sGen(r, tier, emit) // static certificates x NameToCertificate x SNI: both server modes use Certificates[0], [1] (c06sni.go)
 }
 
 type keyLog struct {
